@@ -283,6 +283,112 @@ example : ∃ s, Reachable s ∧ s.pending = true ∧ s.gBlocked = 1 :=
   ⟨_, reachable_of_run (acts := exAccepted ++ [.wStart 4] ++ List.replicate 12 .stepW ++ [.wake 5] ++
       List.replicate 5 .stepM) rfl, rfl, rfl⟩
 
+/-! ### the old generation's retirement has a clock -/
+
+/-- **`retirementDone` closes no later than `max(budget, 0)` after the retirement started — for every
+budget and every behaviour of the old generation's sessions** (none, ending early, ending late,
+never ending), at once when the budget is used up (≤ 0), when there is no session, on `--abort` or
+without dialer overlap, and no later than the moment the next reload cancels it; and the budget never
+exceeds `reloadTotalSwitchBudget`. -/
+theorem retirement_done_within_budget (sc : RetScenario) :
+    retireDoneAt sc ≤ sc.budget.toNat ∧
+    (∀ c, sc.cancelAt = some c → retireDoneAt sc ≤ c) ∧
+    (sc.budget ≤ 0 → retireDoneAt sc = 0) ∧
+    (sc.sessions = 0 ∨ sc.abort = true ∨ sc.overlap = false → retireDoneAt sc = 0) ∧
+    (0 ≤ sc.age → retireDoneAt sc ≤ totalSwitchBudget) := by
+  have hb := drainTime_le_budget sc.budget sc.sessions sc.idleAt sc.cancelAt
+  refine ⟨?_, ?_, ?_, ?_, retireDoneAt_le_total sc⟩
+  · unfold retireDoneAt; split <;> omega
+  · intro c hc
+    unfold retireDoneAt; split
+    · omega
+    · rw [hc]; exact drainTime_le_cancel _ _ _ _
+  · intro h0
+    unfold retireDoneAt; split
+    · rfl
+    · omega
+  · intro h
+    unfold retireDoneAt
+    rcases h with h | h | h
+    · split
+      · rfl
+      · simp [drainTime, h]
+    · simp [h]
+    · simp [h]
+
+/-- the seeded regression's scenario: budget used up, one live session that never ends. -/
+example : (⟨false, false, true, 10000000000, 1, none, none⟩ : RetScenario).budget = 0 ∧
+    retireDoneAt ⟨false, false, true, 10000000000, 1, none, none⟩ = 0 ∧
+    retireAborted ⟨false, false, true, 10000000000, 1, none, none⟩ = [true] := by decide
+
+example : retireDoneAt ⟨false, false, true, 4000000000, 3, some 7000000000, none⟩ = 6000000000 := by decide
+
+/-- `waitForControlPlaneDrain` returns within `max(maxWait, 0)`, for every `maxWait` (negative,
+zero, positive), and always has a result. -/
+theorem drain_wait_bounded (maxWait : Int) (sessions : Nat) (idleAt cancelAt : Option Nat) :
+    drainTime maxWait sessions idleAt cancelAt ≤ maxWait.toNat ∧
+    drainResults maxWait sessions idleAt cancelAt ≠ [] := by
+  exact ⟨drainTime_le_budget _ _ _ _, drainResults_ne_nil _ _ _ _⟩
+
+/-- In the transition system the retirement step starts the clock with that bound: the section
+`startControlPlaneRetirement` publishes an open channel and sets its remaining time to
+`retireDoneAt` of the scenario the environment chose. -/
+theorem retirement_step_starts_clock (s : St) :
+    exec s .startRet = ({ s with retDone := some false, mgrLeft := retireDoneAt s.nextRet }, []) := rfl
+
+/-- The remaining times of open retirements never exceed `reloadTotalSwitchBudget`. -/
+theorem retirement_clock_bounded {s : St} (hr : Reachable s) :
+    s.mgrLeft ≤ totalSwitchBudget ∧ s.gLeft ≤ totalSwitchBudget :=
+  ⟨(reachable_clock hr).mgr, (reachable_clock hr).g⟩
+
+/-- **Time cannot pass an open retirement's completion time** (and completing it is always enabled):
+a `tick d` is possible only within the remaining time of the retirement published in the manager and
+of the one a release goroutine is blocked on, and consumes it. -/
+theorem time_stops_at_retirement_deadline {s s' : St} {d : Nat} (hs : step s (.tick d) = some s') :
+    (s.retDone = some false → d ≤ s.mgrLeft ∧ s'.mgrLeft + d = s.mgrLeft ∧ (step s .closeMgr).isSome = true) ∧
+    (0 < s.gBlocked → d ≤ s.gLeft ∧ s'.gLeft + d = s.gLeft ∧ (step s .closeG).isSome = true) := by
+  unfold step at hs
+  cases hex : s.exited
+  case true => simp [hex] at hs
+  simp only [hex, Bool.false_eq_true, if_false] at hs
+  split at hs
+  · rename_i hc
+    simp only [Option.some.injEq] at hs; subst hs
+    simp only [Bool.and_eq_true, Bool.or_eq_true, decide_eq_true_eq, beq_iff_eq, bne_iff_ne, ne_eq] at hc
+    constructor
+    · intro h
+      have : d ≤ s.mgrLeft := by
+        rcases hc.1 with h' | h'
+        · exact absurd h h'
+        · exact h'
+      exact ⟨this, by simp only; omega, by simp [step, hex, h]⟩
+    · intro h
+      have : d ≤ s.gLeft := by rcases hc.2 with h' | h' <;> omega
+      exact ⟨this, by simp only; omega, by simp [step, hex, h]⟩
+  · cases hs
+
+example : ∃ s s' : St, step s (.tick 5) = some s' ∧ s.retDone = some false ∧ s.mgrLeft = 7 :=
+  ⟨{ retDone := some false, mgrLeft := 7 }, _, rfl, rfl, rfl⟩
+
+/-- **A blocked release waits at most the retirement's remaining time, which is at most
+`reloadTotalSwitchBudget`**: on every schedule from a reachable state in which a release goroutine
+is blocked, as long as its retirement has not completed the model time that has passed is bounded.
+This replaces the assumption "a retirement eventually completes" behind `eventually_accepts_again`:
+once time passes, the completion is the only way forward. -/
+theorem blocked_release_waits_at_most_budget {s s' : St} {acts : List Act} (hr : Reachable s)
+    (hx : s.exited = false) (hg : 0 < s.gBlocked) (hno : Act.closeG ∉ acts)
+    (h : runActs s acts = some s') : elapsed acts ≤ s.gLeft ∧ s.gLeft ≤ totalSwitchBudget :=
+  ⟨blocked_release_bounded hr hx hg hno h, (reachable_clock hr).g⟩
+
+/-- a reload whose old generation (3 sessions, the last one ending after 7 s) retires with 6 s of
+budget left: the release goroutine is blocked with exactly that much time to go. -/
+def exRetiring : List Act :=
+  exAccepted ++ [.chooseRet ⟨false, false, true, 4000000000, 3, some 7000000000, none⟩, .wStart 4] ++
+  List.replicate 12 .stepW ++ [.wake 5] ++ List.replicate 5 .stepM
+
+example : ∃ s, Reachable s ∧ s.exited = false ∧ s.gBlocked = 1 ∧ s.gLeft = 6000000000 ∧ s.pending = true :=
+  ⟨_, reachable_of_run (acts := exRetiring) rfl, rfl, rfl, rfl, rfl⟩
+
 /-! ### answered -/
 
 /-- does the effect list write an answer (Error / result) before it gives the request away? -/
